@@ -208,7 +208,13 @@ class AsyncIOClient(ABC):
                         self.logger.info("Object terminated. stop connect retry.")
                         return
                     
-                    await self._connect_impl()            
+                    try:
+                        await self._connect_impl()
+                    except BaseException:
+                        # the attempt may have opened a link before it failed (socket options, the serial
+                        # adapter's configuration): do not leave it open when the next attempt replaces it
+                        self._shut_link()
+                        raise
                     if self._state == State.CLOSED:
                         # close() was called while the connection was being established
                         self.logger.info("Object terminated while connecting. Closing the new connection.")
